@@ -529,6 +529,14 @@ class Evaluator(object):
             return r
         if isinstance(f, ast.Name) and f.id == 'hasattr' and len(args) == 2 and isinstance(args[0], (int, str, float, tuple, ModelValue)) and isinstance(args[1], str) and f.id not in self.env:
             return hasattr(args[0], args[1]) if not isinstance(args[0], ModelValue) else args[1] in getattr(args[0], 'model_attrs', ())
+        if isinstance(f, ast.Name) and f.id == 'getattr' and len(args) in (2, 3) and isinstance(args[0], (int, str, float, tuple, ModelValue)) and isinstance(args[1], str) and f.id not in self.env \
+                and not isinstance(args[0], Obj):
+            has_ = args[1] in getattr(args[0], 'model_attrs', ()) if isinstance(args[0], ModelValue) else (hasattr(args[0], args[1]) and not callable(getattr(args[0], args[1])))
+            if has_:
+                return getattr(args[0], args[1])
+            if len(args) == 3:
+                return args[2]
+            raise PyRaise('getattr: no attribute %s' % args[1], 'AttributeError')
         if isinstance(f, ast.Name) and f.id in ('setattr', 'getattr', 'hasattr') and args and isinstance(args[0], Obj) and f.id not in self.env:
             o_ = args[0]
             if f.id == 'setattr' and len(args) == 3:
